@@ -42,7 +42,7 @@ def _cfg(params, n, extra=None):
     c.update(extra or {})
     return dict(backend=params["backend"], n_workers=params.get("n_workers", 2), pre_dispatch=params.get("pre_dispatch", 2),
                 batch_size=params.get("batch_size", 1), return_as=params.get("return_as", "list"), calls=[c],
-                hooks={"setup": _setup})
+                hooks={"setup": _setup}, use_with=params.get("use_with", False), warn_raises=params.get("warn_raises", False))
 
 
 def _amount(pre, n_jobs):
@@ -304,6 +304,10 @@ def obligations(tier, seed):
                     "params": {"backend": be, "return_as": ra, "pre_dispatch": 2, "batch_size": 1, "mode": mode,
                                "n_max": 12},
                     "timeout": 600, "bounds": "12 items; failing task / close point 0..7; one pre-emption anywhere; 2 picks"})
+    obs.append({"name": "stop/close_warnings_as_errors/threading", "fn": "ob_stop", "mode": "S",
+                "params": {"backend": "threading", "return_as": "generator", "pre_dispatch": 2, "batch_size": 1, "mode": "close",
+                           "n_max": 12, "use_with": True, "warn_raises": True}, "timeout": 600,
+                "bounds": "as stop/close inside a with block, warnings raised as errors (python -W error)"})
     obs.append({"name": "stop/fail/threading/list/pre=all", "fn": "ob_stop", "mode": "S",
                 "params": {"backend": "threading", "return_as": "list", "pre_dispatch": "all", "batch_size": 1,
                            "mode": "fail", "n_max": 12}, "timeout": 600,
